@@ -295,7 +295,7 @@ def opFindTop (req : Json) : Except String Json := do
             | .error .syntax => FT.Cand.broken .syntax
             | .error .unsignedData => FT.Cand.broken .unsigned
             | .error (.internal k) => FT.Cand.broken (.internal k))
-        | "corrupt" => pure (FT.Cand.broken .compress)
+        | "corrupt" => pure (FT.Cand.broken .syntax)
         | "isdir" => pure (FT.Cand.broken (.os .EISDIR))
         | _ => throw s!"bad cand kind {kind}"
       pure (nm, cand)
